@@ -201,6 +201,18 @@ def g1(self):
 def g2(self):
     return self.vals["g2"]
 '''
+# an any() event declared before one of the states it must cover
+RENDERINGS["any-before-later-state"] = '''
+a = State(initial=True); b = State(); d = State(final=True)
+quit = d.from_.any(unless="g2")
+c = State()
+go = a.to(b, cond="g1") | a.to(c) | b.to(c)
+back = b.to(a) | c.to(a, unless="g2")
+loop = b.to.itself()
+hop = c.to(b, unless="g2")
+skip = hop
+halt = b.to(d, cond="g1") | a.to(d) | b.to(d) | c.to(d)
+'''
 # one event id attached in two styles inside the same class body (event= on some transitions, attribute for others)
 RENDERINGS["mixed-styles"] = '''
 a = State(initial=True); b = State(); c = State(); d = State(final=True)
@@ -286,7 +298,7 @@ BUDGET = {
 }
 BOUNDS = {
     "quick": "one abstract machine (4 states incl. a final one; 6 events; two candidates for (a,go) and (b,halt), cond and unless guards, a self transition, one "
-    "transition bound to two events, `halt` from every non-final state next to an explicit guarded transition to the same target) rendered in 15 styles (one event id attached in two styles inside one class body; on_transition / on_exit_state traces compared as well; (guards also attached with @transition.cond / @event.unless decorators; the enum has an alias; a from_.any(unless=...) event): a.to(b), "
+    "transition bound to two events, `halt` from every non-final state next to an explicit guarded transition to the same target) rendered in 16 styles (an any() event declared above a state it must cover; one event id attached in two styles inside one class body; on_transition / on_exit_state traces compared as well; (guards also attached with @transition.cond / @event.unless decorators; the enum has an alias; a from_.any(unless=...) event): a.to(b), "
     "b.from_(a), multi-source from_(a,b,c) + to.itself(), from_.any(), event='id' / 'id id' / [ids] on the transition, id-less Event() objects passed by reference "
     "(single and in a list), Event(transitions, name=/id=), decorator-declared events, both associations of | and |=, States({...}), States.from_enum, base class + "
     "subclass; each compared with the reference rendering on states, events, allowed_events in every state, and one step from every state on every event and an "
@@ -320,6 +332,11 @@ def run(ctx, params):
             views = {s: static_view(build(s)) for s in STYLES}
             base = static_view(ref)
         for s, v in views.items():
+            if s == "any-before-later-state":
+                v = dict(v, states=sorted(v["states"]))
+                if v != dict(base, states=sorted(base["states"])):
+                    raise Mismatch(f"static-structure-differs:{s}", f"reference {base} vs {s} {v}")
+                continue
             if v != base:
                 raise Mismatch(f"static-structure-differs:{s}", f"reference {base} vs {s} {v}")
         if base["states"] != [(s, s == AMX["initial"], s in AMX["final"]) for s in AMX["states"]] or base["events"] != sorted(AMX["events"]):
